@@ -63,7 +63,7 @@ func C05(c *sim.Ctx) {
 	var images []crashImage
 	var ops []opRecord
 	cur := -1
-	readErrOp, readErrAt, readErrBucket := -1, 0, -1
+	readErrOp, readErrAt, readErrBucket, readErrOcc := -1, 0, -1, 0
 	if class != 2 {
 		n.FDB.Plan.AfterCommit = func(k int) {
 			images = append(images, crashImage{kind: "after_commit", commit: k, st: n.St.CrashImage(c), opIdx: cur})
@@ -77,8 +77,10 @@ func C05(c *sim.Ctx) {
 			n.FDB.Plan.FailWriteAt = 1 + t.Draw("err.at", 40*nOps)
 		case 3:
 			// the first read of a tape-chosen bucket (first key byte) from a tape-chosen operation on fails
+			// (the j-th distinct bucket the operation reads, its (k+1)-th read: adapts to what is read)
 			readErrOp = t.Draw("err.read.op", nOps)
-			readErrBucket = t.Draw("err.read.bucket", 64)
+			readErrBucket = t.Draw("err.read.bucket", 14)
+			readErrOcc = t.Draw("err.read.occurrence", 3)
 		default:
 			// one failing READ (Get/Has) inside a tape-chosen operation: the statement names failing writes;
 			// a transient read error while a block is stored, reverted or pruned is the same kind of fault
@@ -179,8 +181,26 @@ func C05(c *sim.Ctx) {
 		if readErrOp >= 0 && i >= readErrOp {
 			// armed from the chosen operation on until one operation reads that often
 			if readErrBucket >= 0 {
-				bk := byte(readErrBucket)
-				n.FDB.Plan.FailReadMatch = func(key []byte) bool { return len(key) > 0 && key[0] == bk }
+				seen, target, have, occ := map[byte]bool{}, byte(0), false, readErrOcc
+				n.FDB.Plan.FailReadMatch = func(key []byte) bool {
+					if len(key) == 0 {
+						return false
+					}
+					if !seen[key[0]] {
+						seen[key[0]] = true
+						if len(seen)-1 == readErrBucket {
+							target, have = key[0], true
+						}
+					}
+					if !have || key[0] != target {
+						return false
+					}
+					if occ > 0 {
+						occ--
+						return false
+					}
+					return true
+				}
 			} else {
 				n.FDB.Plan.FailReadAt = n.FDB.Reads + readErrAt
 			}
